@@ -1,11 +1,11 @@
 SPECIFICATION Spec
 CONSTANTS
   MaxBytes = 3
-  Cuts = {"origin", "transit"}
-  AcceptLeavesDeadline = FALSE
+  Cuts = {"transit"}
+  AcceptLeavesDeadline = TRUE
   MaxNotices = 1
   NoticeEndsStream = FALSE
-  OriginErrorFatal = FALSE
+  OriginErrorFatal = TRUE
 INVARIANTS
   Prefix
   EOFOnlyAfterAll
